@@ -112,9 +112,17 @@ class Prog:
         self.kw = {}
         if spec.get("aliaser"):
             self.kw["aliaser"] = aliaser_fn(spec["aliaser"])
-        if spec.get("arg_validator"):
-            self.kw["validators"] = [getattr(self.loaded.module, spec["arg_validator"]["n"])]
-        self.compile = harness.call(deserialization_method, self.loaded.T, **self.kw)
+        self.tp = self.loaded.T
+        av = spec.get("arg_validator")
+        if av and av.get("via", "arg") == "arg":
+            self.kw["validators"] = [getattr(self.loaded.module, av["n"])]
+        elif av:
+            from typing import Annotated
+
+            from apischema.metadata import validators as vmeta
+
+            self.tp = Annotated[self.loaded.T, vmeta(getattr(self.loaded.module, av["n"]))]
+        self.compile = harness.call(deserialization_method, self.tp, **self.kw)
         self.method = self.compile.value if self.compile.kind == "ok" else None
         self.order_mode = "sub-first"
         self.aliased = {f["n"] for f in spec["fields"] if ext_name(spec, f["n"]) != f["n"]}
@@ -135,7 +143,7 @@ def observe(prog, case, use_function=False):
     H["ctor"] = 0
     d = datum(prog.spec, case)
     if use_function:
-        out = steps().run(deserialize, prog.loaded.T, d, **prog.kw)
+        out = steps().run(deserialize, prog.tp, d, **prog.kw)
     else:
         out = steps().run(prog.method, d)
     return d, out, list(H["log"]), H["ctor"]
@@ -231,8 +239,8 @@ def check_case(env, prog, case, label, use_function=False):
         elif out.exc == "StepBudgetExceeded":
             viol({"kind": "step-budget", "failing_validator_discards_unread_field": P.f16_shape}, expected=P.brief())
         else:
-            viol({"kind": "exception", "exc": out.exc, "aliased_invalid_field": aliased_bad, "initvar": "initvar" in prog.flags,
-                  "extra_key": extra_kind}, expected=P.brief(), message=out.msg, site=out.site)
+            viol({"kind": "exception", "exc": out.exc, "aliased_invalid_field": aliased_bad}, expected=P.brief(), message=out.msg, site=out.site,
+                 initvar="initvar" in prog.flags, extra_key=extra_kind)
         env.count("ctor_check_skipped_exception")
         return nviol[0]
 
@@ -294,11 +302,21 @@ def check_case(env, prog, case, label, use_function=False):
             run_ok = False
             viol({"kind": "ran-twice", "attach": "validators-arg"}, expected=P.brief())
         elif ran and not P.arg_validator_runs:
-            run_ok = False
-            viol({"kind": "ran-although-not-runnable", "attach": "validators-arg"}, expected=P.brief())
+            if set(av["reads"]) & P.bad:
+                run_ok = False
+                viol({"kind": "ran-although-not-runnable", "attach": "validators-" + av.get("via", "arg"), "reason": "invalid-dep"}, expected=P.brief())
+            else:
+                # every attribute it reads is defaulted: "not run on default values" is documented for class validators only
+                env.count("abstain_arg_validator_all_default")
+                P.arg_validator_runs = True
         elif P.arg_validator_runs and not ran:
-            run_ok = False
-            viol({"kind": "not-run-although-runnable", "attach": "validators-arg", "other_errors": bool(P.errors)}, expected=P.brief())
+            if P.errors:
+                # unregistered function validator while other errors exist: the statement is about class validators; run or not both accepted
+                env.count("abstain_arg_validator_with_other_errors")
+                P.arg_validator_runs = False
+            else:
+                run_ok = False
+                viol({"kind": "not-run-although-runnable", "attach": "validators-" + av.get("via", "arg")}, expected=P.brief())
         elif ran:
             env.count("arg_validator_ran")
 
